@@ -232,6 +232,17 @@ func loadHarness(h *Harness, tier string, repo string) (*loaded, error) {
 	mode := packages.NeedName | packages.NeedFiles | packages.NeedCompiledGoFiles | packages.NeedImports | packages.NeedTypes | packages.NeedTypesSizes | packages.NeedSyntax | packages.NeedTypesInfo
 	cfg := &packages.Config{Mode: mode, Dir: repo, Env: env, Overlay: overlay}
 	pats := append([]string{h.Pkg}, h.Bodies...)
+	for _, d := range []string{"strings", "bytes", "internal/stringslite", "sort", "slices", "math/bits", "strconv", "unicode/utf8", "path", "cmp", "maps", "container/list"} {
+		have := false
+		for _, p := range pats {
+			if p == d {
+				have = true
+			}
+		}
+		if !have {
+			pats = append(pats, d)
+		}
+	}
 	pkgs, err := packages.Load(cfg, pats...)
 	if err != nil {
 		return nil, err
